@@ -72,8 +72,8 @@ class Pool:
         with open(jpath, "w", encoding="utf-8") as f:
             json.dump(job, f)
         world = job["world"]
-        cmd = [PYTHON, "-u", "-m", "sim.worker", jpath, epath]
-        if world.get("pad") is not None:
+        cmd = [PYTHON, "-u", "-m", job.get("module", "sim.worker"), jpath, epath]
+        if world.get("pad") is not None and job.get("module", "sim.worker") == "sim.worker":
             cmd = [PYTHON, "-u", "-c", _PAD_BOOT, str(int(world["pad"])), jpath, epath]
         if world.get("norandomize"):
             cmd = ["setarch", "-R"] + cmd
@@ -128,7 +128,7 @@ class Pool:
         self.count += len(jobs)
         self.spawned += len(jobs)
         # longest first for balance
-        order = sorted(range(len(jobs)), key=lambda i: -len(jobs[i].get("ops", [])))
+        order = sorted(range(len(jobs)), key=lambda i: -len(jobs[i].get("ops", jobs[i].get("runs", []))))
         results: list = [None] * len(jobs)
         with ThreadPoolExecutor(max_workers=NPROC) as ex:
             futs = {i: ex.submit(self._run_one, jobs[i], idx0 + i) for i in order}
